@@ -171,6 +171,19 @@ def run_case(ctx, ltext, rtext, segs, kind, combo):
         ctx.violation("differs/%s/%s" % (kind, where), {"case": case, "summary": "at %r ; result %r" % (df[:3], yp.dump(m.data)[:250])})
 
 
+def dotted_keys(rng, t, depth=0):
+    """Some keys get a path separator inside (logging.level, a/b): reachable through wildcards and searches only,
+    and any code that re-resolves a reported path must have escaped them."""
+    if t[0] != "map":
+        return t
+    items = []
+    for k, v in t[1]:
+        if rng.random() < 0.5 and not k.startswith('"'):
+            k = '"%s%s%s"' % (k, rng.choice([".", "/", "."]), rng.choice(["x", "level", "b"]))
+        items.append((k, dotted_keys(rng, v, depth + 1)))
+    return ("map", items)
+
+
 def run_shard(ctx):
     rng = ctx.rng
     want = SIZES[ctx.tier] // ctx.nshards
@@ -179,6 +192,9 @@ def run_shard(ctx):
         lt = C05.gen_tree(rng, 0, "map")
         if len(lt[1]) < 2:
             continue
+        if rng.random() < 0.15:
+            lt = dotted_keys(rng, lt)
+            ctx.count("docs_with_separator_characters_in_keys")
         ltext = gd.render(lt)
         try:
             L = yp.load(ltext)
